@@ -20,6 +20,22 @@ fn main() {
     if args.replay.is_some() {
         let tier = args.tier;
         Ctx::replay_and_exit(&args, level, "E3", |ctx, case| {
+            // the transport slices replay as a whole (they are a handful of scenarios)
+            match case["world"]["transport"].as_str() {
+                Some("h2") => {
+                    vh::h2slice::run(ctx, &Samples::new(0));
+                    return;
+                }
+                Some("tls") => {
+                    vh::tlsslice::run_c16(ctx, &Samples::new(0));
+                    return;
+                }
+                Some("h2c") | Some("h2-tls") => {
+                    vh::tlsslice::run_c17(ctx, &Samples::new(0));
+                    return;
+                }
+                _ => {}
+            }
             let cfg = WorldCfg::from_json(&case["world"]);
             let events: Vec<Ev> = case["events"].as_array().unwrap().iter().map(|e| Ev::parse(e.as_str().unwrap()).unwrap()).collect();
             if case["settle"] == json!(false) {
@@ -69,6 +85,9 @@ fn main() {
             plans.push((vec![Kind::Gate], true, true));
             plans.push((vec![Kind::GateDrop], true, false));
             plans.push((vec![Kind::Panic], true, false));
+            // a request body the endpoint never reads (large, or announced with Expect: 100-continue)
+            plans.push((vec![Kind::GateBody], true, false));
+            plans.push((vec![Kind::GateExpect], true, false));
             // two clients, every maximal path (4576 histories per mode)
             plans.push((vec![Kind::Gate, Kind::Gate], true, false));
             plans.push((vec![Kind::Gate, Kind::Panic], false, false));
@@ -81,6 +100,9 @@ fn main() {
             plans.push((vec![Kind::Gate, Kind::Gate], false, false));
         }
         (Tier::Thorough, false) => {
+            plans.push((vec![Kind::GateBody], true, true));
+            plans.push((vec![Kind::GateExpect], true, true));
+            plans.push((vec![Kind::Gate, Kind::GateBody], false, false));
             plans.push((vec![Kind::Gate], true, true));
             plans.push((vec![Kind::Panic], true, true));
             plans.push((vec![Kind::Big], true, false));
@@ -196,7 +218,8 @@ fn main() {
         }
         nosettle = json!({"runs": runs, "note": "events fired back to back; only schedule-independent safety invariants are judged; not exhaustive over schedules"});
     }
-    let h2 = if !c17 { vh::h2slice::run(&ctx, &samples) } else { json!(null) };
+    let h2 = if !c17 { vh::h2slice::run(&ctx, &samples) } else { vh::tlsslice::run_c17(&ctx, &samples) };
+    let tls_slice = if !c17 { vh::tlsslice::run_c16(&ctx, &samples) } else { json!(null) };
     if mach > 0 && histories == 0 {
         machinery_failure("no history could be executed");
     }
@@ -209,6 +232,7 @@ fn main() {
         "rule": "state = the harness's script state (per client: phase New/Connected/HalfSent/Sent/Released/Responded, closed?, gate released?; shutdown requested?; waiters); transition = one harness-owned event (Connect, SendHalf, Send, Release, Read, Close(FIN), Reset(RST), Shutdown, Waiter) fired at a real server started fresh for every history and run to quiescence; every history is extended by a canonical tail (release, read, close clients, release remaining gates, shut down) so every execution runs to completion. Invariants (handler board, responses, health probe, close() pending/returned, waiters, listening socket) are evaluated after every event. distinct_nontrivial = distinct observed board-trace vectors.",
         "worlds": worlds,
         "http2_slice": h2,
+        "tls_slice": tls_slice,
         "nosettle_runs": nosettle,
         "degraded_sync": degraded,
         "machinery_errors": mach,
